@@ -1133,7 +1133,14 @@ func (g *G) matrix() *yaml.Node {
 						continue
 					}
 					dims = append(dims, d)
-					dp = append(dp, ent{key: d, gen: func() *yaml.Node { return g.valueList("dimval", 0) }})
+					dp = append(dp, ent{key: d, gen: func() *yaml.Node {
+					if g.C.EmptyMatrix && g.coin("dimnull", 10) {
+						// a dimension declared without values: `os: ~`
+						g.feat("matrix-dimension-null")
+						return Plain("null")
+					}
+					return g.valueList("dimval", 0)
+				}})
 				}
 				return g.mapping("dims", dp)
 			}})
